@@ -9,4 +9,6 @@ mkdir -p .build evidence replays
 cd harness
 "$GO" test -c -tags verif -o ../.build/checks.test ./checks || exit 1
 "$GO" test -c -race -tags verif -o ../.build/checks.race.test ./checks || exit 1
+# the CLI (no verif tag) used by the kernel-lab stages of C09 C10 C13 C17
+(cd /repo && "$GO" build -o /verif/.build/datadog-traceroute . ) || exit 1
 echo setup ok
